@@ -299,7 +299,7 @@ func (s *Sim) Step(line string) (*StepResult, error) {
 	}
 
 	if res.Class == classOK {
-		res.Effects = translateEvents(events)
+		res.Effects = translateEvents(events, s.issueOrderOK)
 	}
 	res.State = s.dumpState()
 	return res, nil
@@ -617,7 +617,38 @@ func stakeOfCoinsText(s string) sdk.Int {
 }
 
 // translateEvents turns the ABCI events of a step into E lines, in order.
-func translateEvents(events []abci.Event) []string {
+// issueOrderOK reports whether the k-th entry of a new_batch_request event is the stored request whose id carries
+// index k (same provider, fee and heights): off-chain clients find a request as requests[index] of that event.
+func (s *Sim) issueOrderOK(ctxHex string, arr []json.RawMessage) bool {
+	ctxID, err := hex.DecodeString(ctxHex)
+	if err != nil {
+		return false
+	}
+	// decoded leniently: the provider stays bech32 text (its JSON form cannot be parsed back for addresses that are
+	// not 20 bytes long, known finding D11, which is not what is checked here)
+	type eventRequest struct {
+		Batch      uint64    `json:"request_context_batch_counter"`
+		Provider   string    `json:"provider"`
+		ServiceFee sdk.Coins `json:"service_fee"`
+		Height     int64     `json:"request_height"`
+		Expiration int64     `json:"expiration_height"`
+	}
+	for k, raw := range arr {
+		var cr eventRequest
+		if json.Unmarshal(raw, &cr) != nil {
+			return false
+		}
+		id := types.GenerateRequestID(ctxID, cr.Batch, cr.Height, int16(k))
+		stored, found := s.k.GetCompactRequest(s.ctx, id)
+		if !found || stored.Provider.String() != cr.Provider || stored.ServiceFee.String() != cr.ServiceFee.String() ||
+			stored.ExpirationHeight != cr.Expiration {
+			return false
+		}
+	}
+	return true
+}
+
+func translateEvents(events []abci.Event, issueOrderOK func(string, []json.RawMessage) bool) []string {
 	var out []string
 	for i, ev := range events {
 		switch ev.Type {
@@ -658,7 +689,11 @@ func translateEvents(events []abci.Event) []string {
 			reqs, _ := attr(ev, types.AttributeKeyRequests)
 			var arr []json.RawMessage
 			_ = json.Unmarshal([]byte(reqs), &arr)
-			out = append(out, fmt.Sprintf("E ev %s %s %d", ev.Type, lowerHexOrDash(id), len(arr)))
+			line := fmt.Sprintf("E ev %s %s %d", ev.Type, lowerHexOrDash(id), len(arr))
+			if issueOrderOK != nil && !issueOrderOK(id, arr) {
+				line += " misordered" // entry k of the event is not the stored request with index k
+			}
+			out = append(out, line)
 
 		case evRespCB:
 			id, _ := attr(ev, "ctx")
